@@ -200,3 +200,36 @@ M('c16-accept-ranges-only-for-ranges', 'C16', 'R4', ST,
 """)
 M('c16-stream-only-without-range', 'C16', 'R4', ST,
   "        resp.set_stream(stream, length)\n", "        if not content_range:\n            resp.set_stream(stream, length)\n")
+
+# ---------------------------------------------------------------- R8 the opened string is the validated one
+M2('c16-open-file-nfc-normalises', 'C16', 'R8', [
+    {'file': ST, 'old': "import re\n", 'new': "import re\nimport unicodedata\n"},
+    {'file': ST, 'old': """    fh: Optional[io.BufferedReader] = None
+    try:
+        fh = io.open(file_path, 'rb')
+""", 'new': """    file_path = unicodedata.normalize('NFC', os.fspath(file_path))
+    fh: Optional[io.BufferedReader] = None
+    try:
+        fh = io.open(file_path, 'rb')
+"""}])
+M('c16-open-file-realpath', 'C16', 'R8', ST,
+  "        fh = io.open(file_path, 'rb')\n", "        fh = io.open(os.path.realpath(file_path), 'rb')\n")
+M('c16-open-file-lowercases-local', 'C16', 'R8', ST,
+  "        fh = io.open(file_path, 'rb')\n", "        name = str(file_path).lower()\n        fh = io.open(name, 'rb')\n")
+M('c16-open-file-strips-trailing-slash', 'C16', 'R8', ST,
+  "        fh = io.open(file_path, 'rb')\n", "        fh = io.open(file=os.fspath(file_path).rstrip('/'), mode='rb')\n")
+# caller side: the value handed over is not the value the guards validated (R1)
+M2('c16-caller-normalises-at-the-sink', 'C16', 'R1', [
+    {'file': ST, 'old': "import re\n", 'new': "import re\nimport unicodedata\n"},
+    {'file': ST, 'old': """        if self._fallback_filename is None:
+            fh, st = _open_file(file_path)
+""", 'new': """        if self._fallback_filename is None:
+            fh, st = _open_file(unicodedata.normalize('NFC', file_path))
+"""}])
+M('c16-caller-rebinds-after-guards', 'C16', 'R1', ST,
+  """        if self._fallback_filename is None:
+            fh, st = _open_file(file_path)
+""", """        file_path = file_path.rstrip('.')
+        if self._fallback_filename is None:
+            fh, st = _open_file(file_path)
+""")
